@@ -87,7 +87,7 @@ pub fn run_batch(seed: u64, start: u64, count: u64, workers: usize, known: &[Kno
     let nchunks = (count + CHUNK - 1) / CHUNK;
     let next = AtomicU64::new(0);
     let min_viol = AtomicU64::new(u64::MAX);
-    let bits = if track_distinct { (64 - (count.max(1024) * 16).leading_zeros()).clamp(20, 34) } else { 6 };
+    let bits = if track_distinct { (64 - (count.max(1024) * 16).leading_zeros()).clamp(20, 33) } else { 6 };
     let bitmap = Bitmap::new(bits);
     let results: Mutex<Vec<(Stats, Vec<(u64, u64)>, Option<Found>, Option<(u64, String)>, Vec<(usize, u64)>)>> = Mutex::new(Vec::new());
     std::thread::scope(|sc| {
@@ -185,6 +185,7 @@ pub fn plan_to_json(p: &Plan) -> J {
     J::obj(vec![
         ("container", J::s(kind_name(p.kind))),
         ("class", J::s(if p.faulty { "faulty" } else { "clean" })),
+        ("element", J::s(ELEM_NAMES[p.elem as usize % 2])),
         ("ops", J::Arr(p.ops.iter().map(op_to_json).collect())),
     ])
 }
@@ -198,7 +199,11 @@ pub fn plan_from_json(j: &J) -> Result<Plan, String> {
         let g = |n: &str| o.get(n).and_then(|x| x.as_i64()).unwrap_or(0) as u32;
         ops.push(Op { k, a: g("a"), b: g("b"), f: g("f") });
     }
-    Ok(Plan { kind, faulty, ops })
+    let elem = match j.get("element").and_then(|x| x.as_str()) {
+        Some("Wide16") => 1,
+        _ => 0,
+    };
+    Ok(Plan { kind, faulty, elem, ops })
 }
 
 pub fn violation_to_json(v: &Violation, op: Option<OpK>) -> J {
@@ -228,6 +233,7 @@ pub fn write_replay(path: &str, seed: u64, run: u64, plan: &Plan, o: &Outcome, m
             match k.as_str() {
                 "container" => pairs.push(("container", v)),
                 "class" => pairs.push(("class", v)),
+                "element" => pairs.push(("element", v)),
                 _ => pairs.push(("ops", v)),
             }
         }
@@ -414,6 +420,16 @@ pub fn minimise_with(plan: &Plan, o: &Outcome, budget: u32, pred: &mut dyn FnMut
                     progress = true;
                     break;
                 }
+            }
+        }
+        // 3b. the plain element shape
+        if best.elem != 0 && tried < budget {
+            let mut c = best.clone();
+            c.elem = 0;
+            if let Some(oc) = attempt(&c, &mut tried) {
+                best = c;
+                best_o = oc;
+                progress = true;
             }
         }
         // 4. the class of the run
